@@ -101,7 +101,9 @@ func (core *JApiCore) collectPathVariables(d *directive.Directive) *jerr.JApiErr
 
 	pp, err := PathParameters(path)
 	if err != nil {
-		return d.KeywordError(err.Error())
+		// A parameter of the path is empty or repeated: the fault is in the
+		// directive which the path is written at.
+		return pathOwner(d).KeywordError(err.Error())
 	}
 
 	if d.Parent == nil {
@@ -127,6 +129,17 @@ func (core *JApiCore) collectPathVariables(d *directive.Directive) *jerr.JApiErr
 	})
 
 	return nil
+}
+
+// pathOwner returns the directive which holds the path described by the given
+// Path directive: the HTTP method if it has a path of its own, its URL otherwise.
+func pathOwner(d *directive.Directive) *directive.Directive {
+	for p := d.Parent; p != nil; p = p.Parent {
+		if p.NamedParameter("Path") != "" {
+			return p
+		}
+	}
+	return d
 }
 
 // checkPathBody validates the body of the Path directive as an ordinary schema:
